@@ -33,7 +33,7 @@ PLAN = dict(
     ),
 )
 TEXT = dict(
-    technique="property-based testing: generated loops (range type x value type x boundary-biased sizes/grains x partitioner, strided loops, for_each with feeder, invoke) x generated schedules over the real scheduler (controlled scheduler, SC+TSO), against per-element visit counters, a chunk log and a split-recording Range wrapper; plus rapidcheck over the range split arithmetic",
+    technique="property-based testing: generated loops (range type x value type x boundary-biased sizes/grains x partitioner, strided loops, for_each with feeder, invoke) x generated schedules over the real scheduler (controlled scheduler, SC+TSO), against per-element visit counters, a chunk log and a split-recording Range wrapper; plus rapidcheck over the range split arithmetic, and rapidcheck over the real algorithm templates and partitioners compiled against a mock runtime whose steal schedule is a generated value",
     level_text="Exploration: every generated loop runs on the real work-stealing runtime while a generated schedule decides which subtasks are stolen; the body logs each (begin,end) chunk and counts every element, a wrapping Range type sees every split together with is_divisible() at that moment. Checked: every chunk non-empty and inside the range, elements visited exactly once at return (pairwise-disjoint + volume for huge ranges), no split of a non-divisible range, simple_partitioner chunks of a blocked_range in [ceil(g/2), g] (one chunk of size n when n <= g) and never divisible for 2d/3d/nd, strided loops call f exactly on first+j*step, for_each processes every initial and fed item once, invoke runs every functor once. Sampling, not exhaustive.",
     level_note=DET_NOTE,
 )
